@@ -18,7 +18,7 @@ ABC_ATTR = {
 def has_protocol(interp, v, attrs):
     """A9: isinstance(x, <runtime protocol/ABC>) <=> x has the protocol's attributes"""
     if isinstance(v, Source):
-        have = {"__aiter__", "__anext__"} | ({"aclose"} if v.has_aclose else set()) | ({"asend", "athrow"} if v.kind == "gen" else set())
+        have = {"__aiter__", "__anext__"} | ({"aclose"} if v.has_aclose else set()) | ({"asend", "athrow"} if v.kind == "gen" else set()) | ({"athrow"} if v.kind == "throwonly" else set())
         if v.kind == "sync":
             have = {"__iter__", "__next__"}
         return all(a in have for a in attrs)
